@@ -123,3 +123,55 @@ class TTAMarker(Harness):
 
 
 HARNESSES = [SubLocation(), TTAMarker()]
+
+
+class CodonStart(Harness):
+    pid, name = "C09", "codon_start"
+    functions = ["antismash.common.secmet.features.cds_feature:CDSFeature.from_biopython",
+                 "antismash.common.secmet.features.feature:Feature.from_biopython",
+                 "antismash.common.secmet.features.feature:Feature.to_biopython",
+                 "antismash.common.secmet.locations:frameshift_location_by_qualifier",
+                 "antismash.common.secmet.locations:_adjust_location_by_offset"]
+    bound = "CDS with 1 or 2 exons, either strand, codon_start 1, 2 or 3, symbolic exon boundaries (first exon in reading order longer than 2 bases)"
+    outside = "origin-spanning genes with codon_start (the repository asserts on them); more than 2 exons"
+
+    def variants(self, tier):
+        return [{"shape": sh, "strand": st, "codon_start": cs} for sh in ("s", "j2") for st in (1, -1) for cs in (1, 2, 3)]
+
+    def vars(self, var):
+        d = {"n": "int", "t": "int"}
+        d.update(shape_vars("g", var["shape"]))
+        return d
+
+    def pre(self, var, v):
+        parts = biological(model_parts("g", var["shape"], v), var["strand"])
+        total = parts_len(parts)
+        return L.And(shape_pre("g", var["shape"], v, v["n"]), parts[0][1] - parts[0][0] > 2, 0 <= v["t"],
+                     total - (var["codon_start"] - 1) >= 6)   # room for the two residues of the given translation
+
+    def run(self, var, v):
+        from Bio.SeqFeature import SeqFeature
+        from antismash.common.secmet.features import CDSFeature
+        bio = SeqFeature(build("g", var["shape"], v, var["strand"]), type="CDS",
+                         qualifiers={"codon_start": [str(var["codon_start"])], "translation": ["MA"], "locus_tag": ["x"]})
+        cds = CDSFeature.from_biopython(bio)
+        back = cds.to_biopython()[0]
+        return {"adjusted": canon_loc(cds.location), "written": canon_loc(back.location),
+                "written_codon_start": back.qualifiers.get("codon_start")}
+
+    def post(self, var, v, out):
+        if is_raised(out):
+            return [("no_raise", False)]
+        gene = biological(model_parts("g", var["shape"], v), var["strand"])
+        skip = var["codon_start"] - 1
+        adj = [(p[0], p[1]) for p in out["adjusted"]]
+        wr = [(p[0], p[1]) for p in out["written"]]
+        t = v["t"]
+        total = parts_len(gene)
+        return [("reading_frame_starts_codon_start_bases_in", L.And(parts_len(adj) == total - skip,
+                                                                      L.Implies(t < total - skip, coding_pos(adj, var["strand"], t) == coding_pos(gene, var["strand"], t + skip)))),
+                ("written_location_is_the_original", L.And(len(wr) == len(gene), [L.And(a[0] == b[0], a[1] == b[1]) for a, b in zip(wr, gene)])),
+                ("codon_start_qualifier_kept", out["written_codon_start"] == [str(var["codon_start"])])]
+
+
+HARNESSES = [SubLocation(), TTAMarker(), CodonStart()]
